@@ -415,6 +415,8 @@ type Auto struct {
 	Pubs    []*mqttp.Publish
 	Others  []mqttp.IFace
 	Seq     []mqttp.IFace // everything, in arrival order
+	PubRaw  [][]byte      // raw bytes of the packets in Pubs
+	aliases map[uint16]string // receiver-side topic alias table (MQTT 5)
 	closed  bool
 	notify  chan struct{}
 	NoAck   bool
@@ -458,7 +460,20 @@ func (a *Auto) loop() {
 		a.Seq = append(a.Seq, pkt)
 		switch p := pkt.(type) {
 		case *mqttp.Publish:
+			if prop := p.PropertyGet(mqttp.PropertyTopicAlias); prop != nil {
+				if al, e := prop.AsShort(); e == nil {
+					if a.aliases == nil {
+						a.aliases = map[uint16]string{}
+					}
+					if p.Topic() != "" {
+						a.aliases[al] = p.Topic()
+					} else if t, ok := a.aliases[al]; ok {
+						_ = p.SetTopic(t)
+					}
+				}
+			}
 			a.Pubs = append(a.Pubs, p)
+			a.PubRaw = append(a.PubRaw, a.LastRaw)
 		default:
 			a.Others = append(a.Others, pkt)
 		}
